@@ -650,6 +650,19 @@ pub fn gen_scenarios(seed: u64, tier: &str) -> Vec<Scenario> {
                 pr.truncate(pos + 1);
             }
         }
+        if id % 10 == 2 {
+            // directed: a Get held just before it opens the file while another server commits content of another length
+            let cur = init.iter().find(|(p, _)| *p == shared).map(|(_, c)| c.clone());
+            if let Some(curc) = cur {
+                let mut b1 = content(&mut r, &pool);
+                if b1.len() == curc.len() { b1.extend(b"+longer"); }
+                let p0 = Req::Put { path: shared.to_string(), exp: Some(curc.clone()), decl: b1.clone(), len: b1.len() as u64, pieces: vec![b1.clone()] };
+                let mut policy = vec![Pol::Until(1, "openr".to_string())];
+                policy.extend((0..60).map(|_| Pol::Step(0)));
+                out.push(Scenario { id, init, progs: vec![vec![p0], vec![Req::Get { path: shared.to_string() }]], policy, class: "directed:get-vs-commit".into(), pidns: false });
+                continue;
+            }
+        }
         if id % 10 == 4 {
             // directed: an overwriting commit held just before the rename that publishes it, while another server reads
             // (Get, sometimes twice) the same path: the reader must see an acknowledged version
